@@ -57,8 +57,7 @@ type customizedFieldTextDecoder struct {
 func (d *customizedFieldTextDecoder) Decode(req *protocol.Request, params param.Params, reqValue reflect.Value) error {
 	var text string
 	var exist bool
-	// the declared default is the field's default whichever of its tags are skipped ("-")
-	defaultValue := declaredDefault(d.tagInfos)
+	var defaultValue string
 	for _, tagInfo := range d.tagInfos {
 		if tagInfo.Skip || tagInfo.Key == jsonTag || tagInfo.Key == fileNameTag {
 			if tagInfo.Key == jsonTag {
